@@ -297,6 +297,7 @@ pub fn gen_cfg_wide(rng: &mut Rng, thorough: bool) -> GenCfg {
     cfg.comments_pct = *rng.pick(&[0u32, 0, 5, 20]);
     cfg.multiline_comments = rng.chance(1, 3);
     cfg.vals.raw_breaks_in_strings = rng.chance(1, 4);
+    cfg.ifdata_comments = rng.chance(1, 3);
     cfg
 }
 
@@ -499,8 +500,24 @@ fn api_built_case(rng: &mut Rng, rec: &mut Recorder, k: usize) {
         ),
         Ok(Ok((m1, _))) => {
             if m1 != m {
+                // known shape: an A2ML text built through the API without leading white space gets
+                // a separating blank when written, which is part of the text after the reload
+                let trim = |x: &A2lFile| {
+                    let mut y = x.clone();
+                    for md in y.project.module.iter_mut() {
+                        if let Some(a) = &mut md.a2ml {
+                            a.a2ml_text = a.a2ml_text.trim_start().to_string();
+                        }
+                    }
+                    y
+                };
+                let sig = if trim(&m1) == trim(&m) {
+                    "reloaded model differs only in leading white space of the A2ML text [API-built A2ML text without leading white space]"
+                } else {
+                    "reloaded model differs [API-built]"
+                };
                 rec.violation(
-                    "reloaded model differs [API-built]",
+                    sig,
                     &format!("load(write(M0)) != M0; {}", model_diff(&m, &m1)),
                     witness_text("API-built", &t, ""),
                 );
